@@ -74,7 +74,7 @@ class Stats:
         )
 
 
-def explore(run, bound=None, max_executions=None, double_every=50, on_exec=None):
+def explore(run, bound=None, max_executions=None, double_every=50, on_exec=None, root=()):
     """Enumerate all executions of *run* with at most *bound* deviations
     (None = unbounded).  Returns (Stats, violations) where violations is a list
     of (choices, violation) pairs.
@@ -83,7 +83,8 @@ def explore(run, bound=None, max_executions=None, double_every=50, on_exec=None)
     """
     stats = Stats()
     found = []
-    stack = [((), None)]
+    stack = [(tuple(root), None)]
+    root_len = len(root)
     while stack:
         prefix, guard = stack.pop()
         if max_executions is not None and stats.executions >= max_executions:
